@@ -206,6 +206,12 @@ pub fn check_program(prog: &Program, seed: u64, thorough: bool, rep: &mut Report
 }
 
 pub fn run(p: &Params, rep: &mut Report) {
+    if p.shard == 8 {
+        // depth instead of width: terms nested a few hundred (thousand) levels deep
+        for d in if p.thorough { vec![64u32, 257, 1000, 3000] } else { vec![65u32, 256, 700 + (p.seed as u32 % 7) * 50] } {
+            super::ladder::deep_nesting(rep, "C02", d, p.seed);
+        }
+    }
     if p.shard == 7 {
         // operand and class counts beyond 2^10 (and, for one term, beyond 2^16)
         for n in if p.thorough { vec![1100u32, 2100, 4200] } else { vec![1100u32] } {
